@@ -112,6 +112,7 @@ def public_path(spec, rng, acc):
     dbx = refdb.db()
     dec = NMEA2000Decoder()
     long_dec = NMEA2000Decoder()
+    excl = {}
     enc = NMEA2000Encoder()
     defs = [d for d in dbx.defs if d.supported and d.fixed_layout and d.type in ("Single", "Fast")]
     defs = [d for k, d in enumerate(defs) if k % spec["n"] == spec["i"]]
@@ -137,6 +138,17 @@ def public_path(spec, rng, acc):
                 outs = {"actisense": dec.decode_actisense_string(wire.actisense_line(prio, d.pgn, src, dst if pdu1 else 255, pb))}
                 if d.type == "Single" and nb <= 8:
                     outs["ebyte"] = dec.decode_tcp(wire.ebyte_frame(ident, pb))
+                    if not pdu1 and (d.pgn & 0xFF):
+                        # a decoder that excludes ANOTHER PGN number of the same 256-block (the one with low byte 0 - for an
+                        # addressed PGN that byte would be a destination, for these it is part of the number)
+                        base_ = d.pgn & ~0xFF
+                        de_ = excl.setdefault(base_, NMEA2000Decoder(exclude_pgns=[base_]))
+                        r_ = de_.decode_usb(wire.usb_frame(ident, pb)) if prio % 2 else de_.decode_tcp(wire.ebyte_frame(ident, pb))
+                        if outs["ebyte"] is not None and r_ is None:
+                            acc.violation("decoded-header-mismatch", f"PGN {d.pgn} is not returned by a decoder that excludes PGN {base_}: its identifier is taken for that of {base_}",
+                                          {"kind": "public_decode", "fmt": "ebyte/usb", "definition": d.id, "prio": prio, "src": src, "dst": dst, "excluded": base_})
+                        outs["frame_with_block_base_excluded"] = r_
+                        acc.count("decodes_with_another_pgn_of_the_block_excluded")
                     outs["usb"] = dec.decode_usb(wire.usb_frame(ident, pb))
                     outs["yd"] = dec.decode_yacht_devices_string(wire.yd_line(ident, pb).strip())
                 elif d.type == "Fast":
